@@ -49,6 +49,16 @@ STD_HEADERS_CPP = {'<limits>', '<cstdint>', '<array>', '<bitset>', '<variant>', 
                    '<type_traits>', '<algorithm>', '<cstring>', '<cmath>', '<utility>', '<initializer_list>', '<string>', '<cstdlib>',
                    '<cassert>', '<cfloat>', '<tuple>', '<iterator>', '<new>', '<functional>'}
 
+def iso_tables() -> typing.Dict[str, typing.Set[str]]:
+    """the COMMITTED header tables of coq/theories/Gen/IsoHeaders.v (one source of truth for theorem and oracle)"""
+    txt = open(os.path.join(core.COQ, 'theories', 'Gen', 'IsoHeaders.v'), encoding='utf-8').read()
+    out = {}
+    for name in ('iso_c11_headers', 'iso_cpp20_headers', 'cetl_headers'):
+        m = re.search(r'Definition %s : list str :=(.*?)\]\.' % name, txt, flags=re.S)
+        out[name] = set(re.findall(r'\(\* (\S+) \*\)', m.group(1))) if m else set()
+    return out
+
+
 FALLBACK_C_FLAGS = ['-pedantic', '-Wall', '-Wextra', '-Werror', '-Wfloat-equal', '-Wconversion', '-Wunused-parameter', '-Wunused-variable',
                     '-Wunused-value', '-Wcast-align', '-Wmissing-declarations', '-Wmissing-field-initializers', '-Wdouble-promotion',
                     '-Wswitch-enum', '-Wtype-limits']
@@ -314,7 +324,8 @@ FINDINGS: typing.Dict[str, dict] = {
         remedy=lambda j: ['-include', 'variant']),
     'F-C06-GUARD-FOLD': dict(
         trigger=lambda j: j.lang in ('c', 'cpp') and len({guard_key(t) for t in j.clos}) < len(j.clos),
-        signature=r'.'),
+        # the first diagnostic must be about one of the types whose guards fold (its definition was skipped / met twice)
+        match=lambda j, out: mentions(diag_head(out), folded_type_names(j))),
     'F-C06-C-BITPACKED': dict(
         trigger=lambda j: j.lang == 'c' and not j.cfg['pod'] and any(t['bool_array_names'] for t in j.clos),
         signature=r"has no member named ['‘]_\w+_bitpacked_['’]"),
@@ -326,14 +337,16 @@ FINDINGS: typing.Dict[str, dict] = {
         signature=r'is deprecated.*\[-Werror=deprecated-declarations\]'),
     'F-C06-STD-MACRO': dict(
         trigger=lambda j: j.lang in ('c', 'cpp') and bool(macro_names(j)),
-        signature=r'.'),
+        # the first diagnostic (message, context or the source line it points at) must name one of the macro-named identifiers
+        match=lambda j, out: mentions(diag_head(out), macro_names(j))),
     'F-C06-CPP-GLOBAL-CLASH': dict(
         trigger=lambda j: j.lang == 'cpp' and bool(clashing_roots(j)),
         signature=r'declared as non-function|redeclared as different kind of|conflicts with a previous declaration|is ambiguous|does not name a type|has not been declared|is not a (class|namespace)|expected'),
     'F-C06-CPP-MEMBER-CLASH': dict(
-        trigger=lambda j: (j.lang == 'cpp' or (j.lang == 'c' and j.variant == 'cxx14')) and bool(verbatim_names(
-            j, ({'size_t', 'std'} | ({'allocator_type'} if (j.cfg['std'] or '').endswith('pmr') else set())) & attr_names_of(j.clos))),
-        signature=r'.'),      # diagnostics of these clashes vary (allocator traits, template lookup): any first diagnostic; the trigger is by name
+        trigger=lambda j: (j.lang == 'cpp' or (j.lang == 'c' and j.variant == 'cxx14')) and bool(member_clash_names(j)),
+        # diagnostics of these clashes vary (allocator traits, template lookup), but the first one with its instantiation context and
+        # source line must name the clashing identifier
+        match=lambda j, out: mentions(diag_head(out), member_clash_names(j))),
     'F-C06-CPP-PADONLY': dict(
         trigger=lambda j: j.lang == 'cpp' and not j.cfg['pod'] and any(t.get('padding_only_sections') for t in j.clos),
         signature=r"unused parameter .obj."),
@@ -342,7 +355,8 @@ FINDINGS: typing.Dict[str, dict] = {
         signature=r'is not a member of|does not name a type|is not a type|has not been declared|is not a (class|namespace)|names the constructor'),
     'F-C06-PY-MODULE-SHADOW': dict(
         trigger=lambda j: j.lang == 'py' and bool(py_shadowing_packages(j)),
-        signature=r'.'),
+        # the exception must be about the shadowing package: its name in the message or its directory in the traceback
+        match=lambda j, out: any(re.search(r"['\"/ ]%s['\"/.]" % re.escape(p), '\n'.join(out.splitlines()[-25:])) for p in py_shadowing_packages(j))),
     'F-C06-PY-POD': dict(
         trigger=lambda j: j.lang == 'py' and j.cfg['pod'],
         signature=r"No module named 'nunavut_support'"),
@@ -509,6 +523,43 @@ def clashing_roots(j: Job) -> typing.Set[str]:
     return out
 
 
+def diag_head(out: str) -> str:
+    """the first diagnostic with its context: everything up to (not including) the second `error:` line, plus the source line it points at"""
+    lines = out.splitlines()
+    idx = [i for i, l in enumerate(lines) if ': error:' in l or 'fatal error' in l]
+    head = lines[:idx[1]] if len(idx) > 1 else lines
+    txt = '\n'.join(head)
+    if idx:
+        m = re.match(r'(\S+?):(\d+):\d+: ', lines[idx[0]])
+        if m:
+            try:
+                txt += '\n' + open(m.group(1), encoding='utf-8', errors='replace').read().splitlines()[int(m.group(2)) - 1]
+            except (OSError, IndexError):
+                pass
+    return txt
+
+
+def mentions(text: str, names: typing.Iterable[str]) -> bool:
+    return any(re.search(r'(?<![A-Za-z0-9_])' + re.escape(n) + r'(?![A-Za-z0-9_])', text) for n in names)
+
+
+def folded_type_names(j: Job) -> typing.Set[str]:
+    by: typing.Dict[str, typing.List[dict]] = {}
+    for t in j.clos:
+        by.setdefault(guard_key(t), []).append(t)
+    out = set()
+    for ts in by.values():
+        if len(ts) > 1:
+            for t in ts:
+                out.add('%s_%d_%d' % (t['short'], t['major'], t['minor']))
+                out.add(t['short'])
+    return out
+
+
+def member_clash_names(j: Job) -> typing.Set[str]:
+    return verbatim_names(j, ({'size_t', 'std'} | ({'allocator_type'} if (j.cfg['std'] or '').endswith('pmr') else set())) & attr_names_of(j.clos))
+
+
 ERR_RE = re.compile(r'(?:error|Error)\b')
 
 
@@ -546,8 +597,7 @@ class Builder:
         env['PYTHONPATH'] = j.out + ':' + os.path.join(core.BUILD, 'pydeps')
         env['PYTHONDONTWRITEBYTECODE'] = '1'
         env.pop('PYTHONHASHSEED', None)
-        code = ('import sys, pathlib, importlib; src = pathlib.Path(sys.argv[1]).read_text(encoding="utf-8"); '
-                'compile(src, sys.argv[1], "exec"); importlib.import_module(sys.argv[2])')
+        code = PY_JOB_CODE
         return [core.PY, '-W', 'error::SyntaxWarning', '-c', code, os.path.join(j.out, j.rel), mod], None, env
 
     def run(self, j: Job, extra: typing.Sequence[str] = ()) -> typing.Tuple[int, str]:
@@ -570,6 +620,42 @@ def header_type(types: typing.Dict[str, dict], info: dict) -> typing.Optional[st
     return None
 
 
+SUPPORT_CASES = {0}
+
+# compile the module, import it in a fresh interpreter, then CALL the generated entry points of every class it defines once (model
+# restoration, repr, serialize, deserialize) so that lazy imports inside function bodies execute.  Import-type failures propagate;
+# other runtime exceptions are not C06's business (C18/C01 are) and are only noted.
+PY_JOB_CODE = r'''
+import sys, pathlib, importlib, inspect
+src = pathlib.Path(sys.argv[1]).read_text(encoding="utf-8")
+compile(src, sys.argv[1], "exec")
+m = importlib.import_module(sys.argv[2])
+if sys.argv[2] != "nunavut_support" and not sys.argv[1].endswith("__init__.py"):
+    import nunavut_support as ns
+    def classes(o, depth=0):
+        for c in list(vars(o).values()):
+            if inspect.isclass(c) and getattr(c, "__module__", None) == m.__name__ and depth < 3:
+                yield c
+                yield from classes(c, depth + 1)
+    called = 0
+    for c in classes(m):
+        if not hasattr(c, "_serialize_"):
+            continue
+        steps = [("model", lambda: ns.get_model(c)), ("repr", lambda: repr(c())),
+                 ("serialize", lambda: b"".join(ns.serialize(c()))),
+                 ("deserialize", lambda: ns.deserialize(c, [memoryview(b"".join(ns.serialize(c())))]))]
+        for name, f in steps:
+            try:
+                f()
+                called += 1
+            except (ImportError, NameError, SyntaxError):
+                raise
+            except Exception as ex:
+                print("C06-RUNTIME-NOTE %s.%s: %s" % (c.__qualname__, name, type(ex).__name__))
+    print("C06-RUNTIME-NOTE called %d" % called)
+'''
+
+
 def make_jobs(ci: int, res: dict, cfgs: typing.List[dict]) -> typing.List[Job]:
     types = {tkey(t): t for t in res['types']}
     jobs = []
@@ -586,10 +672,11 @@ def make_jobs(ci: int, res: dict, cfgs: typing.List[dict]) -> typing.List[Job]:
             if k and cfg['lang'] == 'cpp':
                 chains[k] = list(info.get('ns_open') or [])
         for rel, info in sorted(r['files'].items()):
-            if rel.startswith('nunavut/') or rel == 'nunavut_support.py':
-                continue
+            support = rel.startswith('nunavut/') or rel == 'nunavut_support.py'
+            if support and ci not in SUPPORT_CASES:
+                continue        # the support files do not depend on the DSDL: compiled on their own once per configuration (first cases)
             k = header_type(types, info)
-            clos = closure(types, k) if k else list(types.values())
+            clos = [] if support else (closure(types, k) if k else list(types.values()))
             for variant in (['c11', 'cxx14'] if cfg['lang'] == 'c' else ['own']):
                 jobs.append(Job(ci, cfg, variant, rel, r['out'], types.get(k) if k else None, clos, types, chains, rels))
                 jobs[-1].strop = res.get('strop') or {}
@@ -599,38 +686,58 @@ def make_jobs(ci: int, res: dict, cfgs: typing.List[dict]) -> typing.List[Job]:
 # ---------------------------------------------------------------------------------------------
 # the property's closure oracle on the real outputs (falsifier, independent of the Coq model)
 # ---------------------------------------------------------------------------------------------
+PY_ALLOWED_THIRD_PARTY = {'numpy', 'pydsdl'}      # documented prerequisites of the generated Python code
+
+
 def closure_oracle(res: dict, cfg: dict) -> typing.List[str]:
+    """the last sentence of the property on the REAL outputs: every #include of a generated type header / every import statement of a
+    generated module (any depth, parsed with ast by the harness) is (a) a file this generation produced, (b) an ISO standard header /
+    a standard-library module, (c) an allowed third-party file under the option that selects it; anything else is reported"""
     bad = []
     r = res['runs'].get(cfg_key(cfg))
     if not r or not r['ok']:
         return bad
     files = set(r['files'])
-    std = STD_HEADERS_C if cfg['lang'] == 'c' else STD_HEADERS_CPP
+    iso = iso_tables()
+    if cfg['lang'] == 'c':
+        std = iso['iso_c11_headers']
+    else:
+        std = iso['iso_cpp20_headers'] | (iso['cetl_headers'] if cfg.get('std') == 'cetl++14-17' else set())
+    stdlib = set(getattr(sys, 'stdlib_module_names', ()))
     for rel, info in r['files'].items():
-        if rel.startswith('nunavut/') or rel == 'nunavut_support.py':
-            continue        # the support library itself may include any standard header
+        if info.get('syntax_error'):
+            bad.append('%s is not valid Python: %s' % (rel, info['syntax_error']))
+        support = rel.startswith('nunavut/') or rel == 'nunavut_support.py'
         for inc in info['includes']:
             path = inc[1:-1]
             if path in files:
                 continue
             if inc in std:
                 continue
-            bad.append('%s includes %s which is neither generated nor a standard header' % (rel, inc))
-        for mod in info['imports']:
+            bad.append('%s includes %s which is neither generated nor an ISO standard header%s' % (rel, inc, ' (support file)' if support else ''))
+        for imp in info.get('all_imports', []):
+            mod = imp['module']
+            if mod == '?dynamic' and rel == 'nunavut_support.py':
+                continue        # nunavut_support.get_class(): run-time lookup of a generated package by its DSDL name (documented API)
+            if imp['level']:
+                bad.append('%s line %d: relative import (level %d) is not modelled' % (rel, imp['line'], imp['level']))
+                continue
+            top = mod.split('.')[0]
             p = mod.replace('.', '/')
             if p + '/__init__.py' in files or p + '.py' in files:
-                # the whole package chain must exist as well
                 parts = mod.split('.')
                 for i in range(1, len(parts)):
                     if '/'.join(parts[:i]) + '/__init__.py' not in files:
                         bad.append('%s imports %s but package %s has no __init__.py' % (rel, mod, '.'.join(parts[:i])))
                 continue
-            bad.append('%s imports %s which is not generated' % (rel, mod))
-        for frm, name, _ in info['from']:
-            if frm in ('numpy.typing', '__future__'):
-                continue        # third-party / standard library modules the Python templates name literally
-            if frm.replace('.', '/') + '.py' not in files:
-                bad.append('%s imports from %s which is not generated' % (rel, frm))
+            if top in stdlib or top in PY_ALLOWED_THIRD_PARTY:
+                continue
+            if top == 'pytest' and re.match(r'(_unittest_|test_|_test_)', imp.get('func') or ''):
+                continue        # embedded self-tests of the support module: only a test runner ever calls them
+            if top == 'nunavut_support' and cfg['pod']:
+                continue        # known finding F-C06-PY-POD (probed by its witness); the py/pod configuration is not run while it is live
+            bad.append('%s line %d imports %s (depth %d) which is neither generated, standard library nor an allowed third-party module'
+                       % (rel, imp['line'], mod, imp['depth']))
     return bad
 
 
@@ -803,6 +910,12 @@ def judge(j: Job, builder: Builder, live: typing.Set[str], stats: dict) -> typin
     """run one job; None if clean or fully explained by live known findings whose trigger holds"""
     rc, out = builder.run(j)
     j.rc, j.output = rc, out
+    if j.lang == 'py':
+        notes = [l for l in out.splitlines() if l.startswith('C06-RUNTIME-NOTE')]
+        for l in notes:
+            k = 'py_entry_points_called' if ' called ' in l else 'py_runtime_notes'
+            stats[k] = stats.get(k, 0) + (int(l.rsplit(' ', 1)[1]) if ' called ' in l else 1)
+        out = '\n'.join(l for l in out.splitlines() if not l.startswith('C06-RUNTIME-NOTE'))
     if rc == 0 and not out.strip():
         return None
     explained_by = None
@@ -822,10 +935,10 @@ def judge(j: Job, builder: Builder, live: typing.Set[str], stats: dict) -> typin
     if explained_by is None:
         fe = first_error(out)
         for f in FINDINGS:
-            sig = FINDINGS[f].get('signature')
-            if f in live and sig and FINDINGS[f]['trigger'](j):      # evaluated on the translation unit as last compiled
+            sig, mt = FINDINGS[f].get('signature'), FINDINGS[f].get('match')
+            if f in live and (sig or mt) and FINDINGS[f]['trigger'](j):      # evaluated on the translation unit as last compiled
                 applicable.append(f)
-                if re.search(sig, fe):
+                if (mt(j, out) if mt else re.search(sig, fe)):
                     explained_by = used + [f]
                     break
     if explained_by is not None:
@@ -900,7 +1013,10 @@ def main(chk: core.Check, replay: typing.Optional[str] = None) -> int:
     builder = Builder()
 
     # 1. proof obligations against the regenerated tables
+    import time as _time
+    _t0 = _time.time()
     res = core.coq_check('C06', ['closure'])
+    _t_coq = _time.time() - _t0
     chk.proof_coverage(res, [
         'translator tools/translators/gen_c06.py (get_includes of c/cpp -> condition tables; make_path call sites and id types; support '
         'file lists; std-name scan of the templates)',
@@ -970,7 +1086,7 @@ def main(chk: core.Check, replay: typing.Optional[str] = None) -> int:
     for pr in opt_problems:
         broken.append('language option matrix: ' + pr)
     extra_cfgs = option_configs(opt_dims, chk.rng, quick) if not replay else []
-    opt_cases = [i for i in range(len(cases)) if i < 2 or (not quick and i < 2 + n_wit + 8)] if extra_cfgs else []
+    opt_cases = [i for i in range(len(cases)) if i < (1 if quick else 2) or (not quick and i < 2 + n_wit + 8)] if extra_cfgs else []
     opt_cases = [i for i in opt_cases if outs[i] is not None and outs[i].get('valid')]
     for b in range(0, len(opt_cases), batch):
         sel = opt_cases[b:b + batch]
@@ -995,6 +1111,8 @@ def main(chk: core.Check, replay: typing.Optional[str] = None) -> int:
             continue
         if not r['valid']:
             stats['rejected_by_pydsdl'] += 1
+            if not replay and ci < 2 + n_wit:
+                broken.append('fixed corpus case %d (%s) is rejected by pydsdl: %s' % (ci, case['main'], r.get('reason', '')[:200]))
             continue
         stats['valid'] += 1
         stats['types'] += len(r['types'])
@@ -1023,8 +1141,11 @@ def main(chk: core.Check, replay: typing.Optional[str] = None) -> int:
                 req_index.append((ci, cfg))
         ccfgs = cfgs_here
         if quick:
+            # quick tier: the fixed corpus (cases 0, 1) is compiled for every standard; POD C++ for c++14 + one rotating standard; random cases
+            # and class witnesses for c++14 + two rotating standards
             keep_pod = {'c++14', chk.rng.choice(CPP_STDS[1:])}
-            ccfgs = [c for c in cfgs_here if c.get('opts') or not (c['lang'] == 'cpp' and c['pod'] and c['std'] not in keep_pod)]
+            keep_ser = set(CPP_STDS) if ci < 2 else {'c++14'} | set(chk.rng.sample(CPP_STDS[1:], 2))
+            ccfgs = [c for c in cfgs_here if c.get('opts') or c['lang'] != 'cpp' or (c['std'] in (keep_pod if c['pod'] else keep_ser))]
         jobs += make_jobs(ci, r, ccfgs)
 
     # model vs implementation
@@ -1043,6 +1164,7 @@ def main(chk: core.Check, replay: typing.Optional[str] = None) -> int:
             if d:
                 model_diffs.append({'case_index': ci, 'config': cfg_key(cfg), 'diffs': d[:6]})
 
+    _t_gen = _time.time() - _t0 - _t_coq
     # compile / import every generated file on its own
     stats['compile_jobs'] = len(jobs)
     with ThreadPoolExecutor(max_workers=8) as ex:
@@ -1060,6 +1182,8 @@ def main(chk: core.Check, replay: typing.Optional[str] = None) -> int:
     stats['reserved_patterns_total'] = len(cov)
     stats['hostile_names_used'] = len(names)
     stats['flags'] = builder.flag_source
+    stats['wall_breakdown_s'] = {'coq_incl_lock_wait': round(_t_coq, 1), 'extract_probe_generate_model': round(_t_gen, 1),
+                                 'compile_import': round(_time.time() - _t0 - _t_coq - _t_gen, 1)}
     stats['language_options'] = opt_info
     stats['option_configs'] = [cfg_key(c) for c in extra_cfgs]
     stats['probe'] = probe_detail
